@@ -74,6 +74,33 @@ theorem lookup_filter_ne {l : List (Nat × V)} {o k : Nat} {v : V}
       | true => simpa [hkk] using h
       | false => simp only [hkk] at h ⊢; exact ih h
 
+theorem lookup_filter_key {l : List (Nat × V)} {q : Nat → Bool} {k : Nat} {v : V}
+    (h : (l.filter (fun p => q p.1)).lookup k = some v) : l.lookup k = some v := by
+  induction l with
+  | nil => simp at h
+  | cons a l ih =>
+    obtain ⟨k', v'⟩ := a
+    by_cases hq : q k' = true
+    · have hf : List.filter (fun p => q p.1) ((k', v') :: l) = (k', v') :: l.filter (fun p => q p.1) := by
+        simp [hq]
+      rw [hf] at h
+      simp only [List.lookup_cons] at h ⊢
+      cases hkk : (k == k') with
+      | true => simpa [hkk] using h
+      | false => simp only [hkk] at h ⊢; exact ih h
+    · have hf : List.filter (fun p => q p.1) ((k', v') :: l) = l.filter (fun p => q p.1) := by
+        simp [hq]
+      rw [hf] at h
+      have hk : k ≠ k' := by
+        intro hkk
+        subst hkk
+        have hm := lookup_mem h
+        simp only [List.mem_filter] at hm
+        exact hq hm.2
+      have : (k == k') = false := by simpa using hk
+      simp only [List.lookup_cons, this]
+      exact ih h
+
 theorem mem_zipOuts {os : List (Option Nat)} {vs : List V} {k : Nat} {v : V}
     (h : (k, v) ∈ zipOuts os vs) : some k ∈ os := by
   induction os generalizing vs with
@@ -155,10 +182,10 @@ theorem lookupVal_den {temps : List (Nat × V)}
         simp only [hl] at h
         exact ht id v h hn hl
 
-theorem stepOp_sound {plan : List Nat} {p : Nat} {temps temps' : List (Nat × V)}
+theorem stepOp_sound {plan sup : List Nat} {p : Nat} {temps temps' : List (Nat × V)}
     (tie : Tie g sem ω ω' vs vI plan) (hp : p ∈ plan)
     (ht : TempsOK g sem ω' cv vs vI temps)
-    (h : stepOp g sem ω cv vs temps p = .ok temps') : TempsOK g sem ω' cv vs vI temps' := by
+    (h : stepOp g sem ω cv sup vs temps p = .ok temps') : TempsOK g sem ω' cv vs vI temps' := by
   unfold stepOp at h
   cases hop : getOp g p with
   | none => simp [hop] at h
@@ -181,14 +208,16 @@ theorem stepOp_sound {plan : List Nat} {p : Nat} {temps temps' : List (Nat × V)
             (fun d _ v hv => lookupVal_den tie.views ht hv) hg
           intro id v hlk hn hl
           rw [lookup_append'] at hlk
-          cases hz : (zipOuts op.outputs outs).reverse.lookup id with
+          cases hz' : ((zipOuts op.outputs outs).reverse.filter
+              (fun p => !sup.contains p.1)).lookup id with
           | none =>
-            simp only [hz] at hlk
+            simp only [hz'] at hlk
             exact ht id v hlk hn hl
           | some w =>
-            simp only [hz] at hlk
+            simp only [hz'] at hlk
             injection hlk with hlk
             subst hlk
+            have hz := lookup_filter_key (q := fun k => !sup.contains k) hz'
             have hmem : id ∈ opOutputs op :=
               mem_opOutputs_of_some (mem_zipOuts (List.mem_reverse.mp (lookup_mem hz)))
             have hsrc : getSource g id = some (p, op) := by
@@ -199,9 +228,9 @@ theorem stepOp_sound {plan : List Nat} {p : Nat} {temps temps' : List (Nat × V)
             have hs' : sem ω' p args = some outs := by rw [← tie.det p hp]; exact hs
             exact den_op g sem ω' cv vI hn hfresh hsrc hF hs' hlen hz
 
-theorem execPlan_sound : ∀ (plan : List Nat) (temps temps' : List (Nat × V)),
+theorem execPlan_sound {sup : List Nat} : ∀ (plan : List Nat) (temps temps' : List (Nat × V)),
     Tie g sem ω ω' vs vI plan → TempsOK g sem ω' cv vs vI temps →
-    execPlan g sem ω cv vs plan temps = .ok temps' → TempsOK g sem ω' cv vs vI temps'
+    execPlan g sem ω cv sup vs plan temps = .ok temps' → TempsOK g sem ω' cv vs vI temps'
   | [], temps, temps', _, ht, h => by
     simp only [execPlan] at h
     injection h with h
@@ -209,7 +238,7 @@ theorem execPlan_sound : ∀ (plan : List Nat) (temps temps' : List (Nat × V)),
     exact ht
   | p :: rest, temps, temps', tie, ht, h => by
     simp only [execPlan] at h
-    cases hs : stepOp g sem ω cv vs temps p with
+    cases hs : stepOp g sem ω cv sup vs temps p with
     | error e => simp [hs] at h
     | ok t1 =>
       simp only [hs] at h
@@ -296,7 +325,8 @@ theorem runPlan_sound {plan outs : List Nat} {vals : List V}
     (h : runPlan g sem ω cv vs [] plan outs = .ok vals) :
     vals.length = outs.length ∧ ∀ pr ∈ outs.zip vals, Den g sem ω' cv vI pr.1 pr.2 := by
   unfold runPlan at h
-  cases he : execPlan g sem ω cv vs plan [] with
+  simp only [List.filter_nil, List.append_nil] at h
+  cases he : execPlan g sem ω cv (vs.map (fun p => p.1)) vs plan [] with
   | error e => simp [he] at h
   | ok temps =>
     simp only [he] at h
